@@ -16,7 +16,8 @@ RULE = (
 ASSUMPTIONS = [
     "a history uses one dtype per utterance (SI documents a ValueError for mixed dtypes inside an utterance)",
     "empty (0-frame) results are compared by shape only: an empty matrix has no feature bits and its dtype after a zero-sample utterance is not part of the statement",
-    "configurations as in C01 (STFT with shift <= length, SI inside the frame-shift precondition), 1 kHz",
+    "configurations as in C01 (SI inside the frame-shift precondition), 1 kHz; STFT computers also with a frame shift above the frame length "
+    "(without kaldi_shift, where compute_full of the unmodified library rejects most signals)",
     "'input arrays are never modified' is judged for read-only arrays (must be accepted) and for writable ones, against a private copy, "
     "after the call and after every later call of the history; utterances may end in NaN / inf samples (results compared NaN-aware)",
 ]
@@ -66,8 +67,8 @@ def check_history(case):
     bank = call("bank constructor", build_bank, spec["bank"])
     real = call("computer constructor", build_computer, spec, bank)
     L, S = real.frame_length, real.frame_shift
-    if spec["kind"] == "stft" and (S < 1 or S > L):
-        raise Discard()
+    if spec["kind"] == "stft" and (S < 1 or (S > L and spec.get("kaldi_shift"))):
+        raise Discard()  # (with kaldi_shift and a shift above the length compute_full itself rejects most signals)
     fresh = lambda: build_computer(spec, bank)  # noqa
     require(real.started is False, "a new instance reports started={!r}", real.started)
 
@@ -229,6 +230,11 @@ def _histories(draw, kind):
         comp["frame_style"] = draw(st.sampled_from(["causal", "centered"]))
         if draw(st.booleans()):
             comp["S"] = draw(st.integers(1, max(1, comp["L"] // 3)))
+        elif draw(st.integers(0, 3)) == 0:
+            # sub-sampled analysis: a frame shift above the frame length leaves samples between frames that belong to
+            # no frame - "any computer configuration" includes it, and history independence does not need more
+            comp["S"] = comp["L"] + draw(st.integers(1, 2 * comp["L"] + 1))
+            comp["kaldi_shift"] = False
         L, S = comp["L"], comp["S"]
     else:
         comp = draw(si_specs())
